@@ -23,12 +23,12 @@ def tor(t):
 
 def cload(l):
     return "{| cl_term := %s; cl_local := %s; cl_t := %s; cl_v := %s |}" % (
-        TERM[l["Term"]], b(l["Local"]), q(l["T"]), q(l["V"]))
+        TERM.get(l["Term"], "FX"), b(l["Local"]), q(l["T"]), q(l["V"]))
 
 
 def dload(l):
     return "{| dl_term := %s; dl_local := %s; dl_t0 := %s; dl_v0 := %s; dl_t1 := %s; dl_v1 := %s |}" % (
-        TERM[l["Term"]], b(l["Local"]), q(l["T0"]), q(l["V0"]), q(l["T1"]), q(l["V1"]))
+        TERM.get(l["Term"], "FX"), b(l["Local"]), q(l["T0"]), q(l["V0"]), q(l["T1"]), q(l["V1"]))
 
 
 def bar(jb, node_index):
